@@ -46,7 +46,8 @@ def parseInput (j : Json) : RunInput :=
     argsOk := boolsOf j "argsOk" true
     calcRes := listFn ((jarr j "calcRes").map parseCalcRes)
     hasTeardown := boolsOf j "teardown" false
-    noAct := boolsOf j "noAct" false }
+    noAct := boolsOf j "noAct" false
+    calcResFail := listFn ((jarr j "calcResFail").map parseCalcRes) }
 
 def failKindStr : FailKind → String
   | .unmet => "unmet" | .depErr => "deperr" | .failed => "failed" | .error => "error"
@@ -328,13 +329,14 @@ partial def simulate (inp : RunInput) (s : Sys) (fuel : Nat) : Sys :=
 
 /-- every dependency of every kind (static and deliverable) points to a task with a smaller rank given by `rank` -/
 def allStaticDeps (inp : RunInput) (t : Nat) : List Nat :=
-  inp.taskDep t ++ inp.calcDep t ++ inp.setup t ++ (inp.calcRes t).calcs
+  inp.taskDep t ++ inp.calcDep t ++ inp.setup t ++ (inp.calcRes t).calcs ++ (inp.calcResFail t).calcs
 
 partial def reachesSelf (inp : RunInput) (n : Nat) (t : Nat) : Bool := Id.run do
   -- DFS over static + deliverable edges
   let succ (x : Nat) : List Nat :=
     inp.taskDep x ++ inp.calcDep x ++ inp.setup x ++
-      ((inp.calcDep x).flatMap fun c => (inp.calcRes c).tasks ++ (inp.calcRes c).files ++ (inp.calcRes c).calcs)
+      ((inp.calcDep x).flatMap fun c => (inp.calcRes c).tasks ++ (inp.calcRes c).files ++ (inp.calcRes c).calcs ++
+        (inp.calcResFail c).tasks ++ (inp.calcResFail c).files ++ (inp.calcResFail c).calcs)
   let mut seen : List Nat := []
   let mut todo := succ t
   let mut fuel := n * n + 10
@@ -387,7 +389,7 @@ def handle (j : Json) : Json :=
           ("C02_at_most_once", Json.bool m3), ("C02_inside_closure", Json.bool m4),
           ("C02_all_processed", Json.bool m5)]),
         ("hyp", Json.mkObj [("acyclic", Json.bool acyclic)]),
-        ("closure", ofNats (closureOf inp n tr)),
+        ("closure", ofNats (closureOfF inp n tr)),
         ("complete", Json.bool (runComplete inp tr exit))]
 
 end Driver.Run
